@@ -333,6 +333,9 @@ class RunLengthArray(NPSIndexable, np.lib.mixins.NDArrayOperatorsMixin):
             values = values.view(np.uint32)
         elif values.dtype == np.float16:
             values = values.view(np.uint16)
+        elif values.dtype.kind not in "biu":
+            # complex, extended precision, ...: no unsigned twin to XOR through -- repeat every value over its run
+            return np.repeat(values, self._ends - self._starts)
 
         array = np.zeros_like(values, shape=len(self))
         op = np.logical_xor if array.dtype == bool else np.bitwise_xor
